@@ -620,3 +620,100 @@ def rule_feeders_started(ctx, rule='C01.i'):
                     'started from %s' % ', '.join(sorted({g.short for g in callers})) if ok else
                     'nothing in the module calls %s: the incoming queue is never fed' % name)
     rep.require(rule, 'feeders of message transports', n, 7)
+
+
+def rule_marker_queues_read_item_by_item(ctx, rule='C04.j'):
+    """A queue that carries the end-of-connection marker next to data is read one item at a time and every item is
+    asked whether it is the marker before anything else is done with it.  Marker queues are the queue attributes into
+    which some function of the transports puts an exception object (`put_nowait(RSocketTransportError())`, an
+    `except ... as e` name); attribute aliases (`self._incoming_bytes_queue = quic_protocol.frame_queue`) are
+    followed.  Every `get()` / `get_nowait()` on such a queue is the whole right-hand side of an assignment to a plain
+    local, and the next statement (logging aside) is an `if` that tests that local with isinstance(..., <exception
+    class>).  Batching (`data += queue.get_nowait()`) concatenates a marker into the bytes - a TypeError that the
+    listener's catch-all turns into a transport error, losing the chunks already taken from the queue."""
+    rep = ctx.report
+    repo = ctx.repo
+    exc_names = _exception_classes(repo) | {'Exception', 'BaseException'}
+    funcs = [f for f in repo.all_functions() if f.module.name.startswith('rsocket.transports')]
+    # marker queues, by attribute name
+    marker = set()
+    for f in funcs:
+        handlers = {h.name for n in walk_local(f.node) if isinstance(n, ast.Try) for h in n.handlers if h.name}
+        for n in walk_local(f.node):
+            if isinstance(n, ast.Call) and isinstance(n.func, ast.Attribute) and n.func.attr in ('put', 'put_nowait') \
+                    and n.args and isinstance(n.func.value, ast.Attribute):
+                a = n.args[0]
+                if isinstance(a, ast.Name) and a.id not in handlers:
+                    # a temporary holding the marker
+                    assigned = [x.value for x in walk_local(f.node) if isinstance(x, ast.Assign) and
+                                any(isinstance(t, ast.Name) and t.id == a.id for t in x.targets)]
+                    if len(assigned) == 1:
+                        a = assigned[0]
+                is_exc = isinstance(a, ast.Call) and isinstance(a.func, ast.Name) and a.func.id in exc_names or \
+                    isinstance(a, ast.Name) and a.id in handlers
+                if is_exc:
+                    marker.add(n.func.value.attr)
+    for _ in range(3):
+        for f in funcs:
+            for n in walk_local(f.node):
+                if isinstance(n, ast.Assign) and len(n.targets) == 1 and isinstance(n.targets[0], ast.Attribute) and \
+                        isinstance(n.value, ast.Attribute) and n.value.attr in marker:
+                    marker.add(n.targets[0].attr)
+    rep.require(rule, 'queues that carry an end-of-connection marker', len(marker), 2)
+    n_sites = 0
+    for f in funcs:
+        for block in _blocks(f.node):
+            for i, st in enumerate(block):
+                gets = [c for c in ast.walk(st) if isinstance(c, ast.Call) and isinstance(c.func, ast.Attribute) and
+                        c.func.attr in ('get', 'get_nowait') and isinstance(c.func.value, ast.Attribute) and
+                        c.func.value.attr in marker and not c.args]
+                # only the statement that directly contains the call (not an enclosing compound statement)
+                gets = [c for c in gets if not any(
+                    isinstance(s, ast.stmt) and s is not st and any(x is c for x in ast.walk(s))
+                    for s in ast.walk(st))]
+                for c in gets:
+                    n_sites += 1
+                    value = st.value if isinstance(st, ast.Assign) else None
+                    if isinstance(value, ast.Await):
+                        value = value.value
+                    ok = isinstance(st, ast.Assign) and value is c and len(st.targets) == 1 and \
+                        isinstance(st.targets[0], ast.Name)
+                    detail = ''
+                    if not ok:
+                        detail = ('`%s`: the dequeued item is used before it is asked whether it is the '
+                                  'end-of-connection marker' % ast.unparse(st).split('\n')[0])
+                    else:
+                        var = st.targets[0].id
+                        rest = [s for s in block[i + 1:] if not (isinstance(s, ast.Expr) and 'logger' in ast.unparse(s))]
+                        nxt = rest[0] if rest else None
+                        tested = isinstance(nxt, ast.If) and any(
+                            isinstance(x, ast.Call) and isinstance(x.func, ast.Name) and x.func.id == 'isinstance' and
+                            len(x.args) == 2 and isinstance(x.args[0], ast.Name) and x.args[0].id == var
+                            for x in ast.walk(nxt.test))
+                        if not tested:
+                            ok = False
+                            detail = ('the statement after `%s` is not the isinstance test of %s: %s' % (
+                                ast.unparse(st), var, ast.unparse(nxt).split('\n')[0] if nxt is not None else 'nothing'))
+                    rep.add(rule, '%s / item of %s tested before use' % (f.qualname.split(':')[-1],
+                                                                        c.func.value.attr), f, ok,
+                            detail or '%s = <item>; if isinstance(%s, ...)' % (st.targets[0].id, st.targets[0].id))
+    rep.require(rule, 'reads of marker queues', n_sites, 2)
+
+
+def _blocks(node):
+    """Every statement list of a function body, nested ones included (nested function definitions excluded)."""
+    out = []
+
+    def visit(stmts):
+        out.append(stmts)
+        for s in stmts:
+            if isinstance(s, (ast.FunctionDef, ast.AsyncFunctionDef, ast.ClassDef)):
+                continue
+            for field in ('body', 'orelse', 'finalbody'):
+                sub = getattr(s, field, None)
+                if isinstance(sub, list) and sub and isinstance(sub[0], ast.stmt):
+                    visit(sub)
+            for h in getattr(s, 'handlers', []) or []:
+                visit(h.body)
+    visit(node.body)
+    return out
